@@ -13,9 +13,10 @@
 (* (two's complement for signed fields), which is exact for every width    *)
 (* although TLC's integers have 32 bits.                                   *)
 (*                                                                         *)
-(* Switch (DESIGN 1.1): PlaceholderTypedAsCookie = TRUE is the code as     *)
-(* written (CookiePlaceholder.pack uses extCookie), FALSE the repaired     *)
-(* behaviour.                                                              *)
+(* Switch (DESIGN 1.1): PlaceholderTypedAsCookie = FALSE is the code       *)
+(* (default in every cfg); TRUE is the code before fix 69cd14a             *)
+(* (CookiePlaceholder.pack used extCookie) -- kept in Wire_faithful.cfg as  *)
+(* a self-test: the property section must reject it.                        *)
 (***************************************************************************)
 EXTENDS Integers, Sequences, FiniteSets, TLC
 
@@ -206,7 +207,7 @@ ValueClasses(w) ==
 (*    authenticator (NewResponsePacket).                                   *)
 (***************************************************************************)
 NtpHdrLen == 48
-MaxPacketLen == 1024
+MaxPacketLen == 1280
 ExtUniqueIdentifier == 260     \* 0x104
 ExtCookie == 516               \* 0x204
 ExtCookiePlaceholder == 772    \* 0x304
@@ -434,8 +435,10 @@ CryptRoundTrip(c, keyid) ==
 
 (***************************************************************************)
 (* Model: one case per behaviour (all codecs are pure functions).          *)
-(*   lay   one field of one message type takes a list of values, the other *)
-(*         fields a base pattern                                           *)
+(*   lay   one field of one message type takes a list of values (value     *)
+(*         classes, or a sweep of the last byte), the other fields a base  *)
+(*         pattern                                                         *)
+(*   layb  a valid encoding written down as bytes                          *)
 (*   lvm   one first byte                                                  *)
 (*   nts   a packet shape (lengths; contents are filled deterministically) *)
 (*   sck / eck / crypt   cookie shapes                                     *)
@@ -455,7 +458,6 @@ SweepPrefixes(w) == IF w = 1 THEN {<< >>}
                     ELSE IF w = 2 THEN {<<h>> : h \in SweepPrefixes2}
                     ELSE IF SweepWide THEN {Zeros(w - 1), Fill(w - 1, 255)} ELSE {}
 SweepValues(pre) == {pre \o <<x>> : x \in Byte}
-LayCaseFields(m, ssds) == {r \in DataRows(m) : ActiveRow(r, ssds)}
 \* vals of a case: field f := v, FlagField bit 0 := ssds (unless f is FlagField), others base
 ForceFlag(bs, ssds) == [bs EXCEPT ![4] = (bs[4] - (bs[4] % 2)) + (IF ssds THEN 1 ELSE 0)]
 Canon(m, vals) == [f \in DOMAIN vals |-> IF ActiveRow(RowOf(m, f), Ssds(m, vals)) THEN vals[f]
@@ -467,13 +469,17 @@ CaseVals(m, ssds, base, f, v) ==
                  ELSE Fill(RowOf(m, g).w, BaseByte(base))]
   IN Canon(m, raw)
 \* groups (second fan-out level): (message, condition, base, field) x 16 slices of the sweep prefixes
-LayGroups ==
-  {g \in {[k |-> "grp", fam |-> "lay", m |-> m, ssds |-> ssds, base |-> base, f |-> r.f, w |-> r.w, sub |-> sub] :
-             m \in Msgs, ssds \in BOOLEAN, base \in Bases, r \in UNION {DataRows(mm) : mm \in Msgs}, sub \in 0 .. 15} :
+AllDataRows == UNION {DataRows(mm) : mm \in Msgs}
+LayGroups0 ==
+  {g \in {[m |-> m, ssds |-> ssds, base |-> base, f |-> r.f, w |-> r.w] :
+             m \in Msgs, ssds \in BOOLEAN, base \in Bases, r \in AllDataRows} :
      /\ g.f \in FieldNames(g.m) /\ RowOf(g.m, g.f).w = g.w /\ g.ssds \in Conds(g.m)
-     /\ ActiveRow(RowOf(g.m, g.f), g.ssds)
-     /\ (g.sub > 0 => g.w = 2 /\ g.base \in SweepBases /\ ((RowOf(g.m, g.f).cond = "ssds") = g.ssds)
-                        /\ \E h \in SweepPrefixes2 : h \div 16 = g.sub)}
+     /\ ActiveRow(RowOf(g.m, g.f), g.ssds)}
+SweepSlices == {h \div 16 : h \in SweepPrefixes2}
+LayGroups ==
+  {x \in {[k |-> "grp", fam |-> "lay", m |-> g.m, ssds |-> g.ssds, base |-> g.base, f |-> g.f, w |-> g.w, sub |-> sub] :
+             g \in LayGroups0, sub \in {0} \cup SweepSlices} :
+     x.sub > 0 => x.w = 2 /\ x.base \in SweepBases /\ ((RowOf(x.m, x.f).cond = "ssds") = x.ssds)}
 \* sweeps: under the bases of the tier; a row that is always on the wire is swept in the short layout only
 SweepHere(g) == g.base \in SweepBases /\ ((RowOf(g.m, g.f).cond = "ssds") = g.ssds)
 InSlice(pre, w, sub) == IF w = 2 THEN pre[1] \div 16 = sub ELSE sub = 0
@@ -507,7 +513,8 @@ NtsCasesOf(g) ==
              ps \in UNION {{[i \in 1 .. n |-> l] : n \in 0 .. NtsMaxPh} : l \in NtsPhLens}, ts \in NtsPtShapes} :
      NtsFits(x)}
 \* NewRequestPacket for ntske.Data with n cookies of length cl: one cookie, 8-n placeholders
-\* NewResponsePacket with n cookies of length cl
+\* NewResponsePacket with n cookies of length cl (it keeps only as many cookies as fit MaxPacketLen:
+\* (1280 - 48 - 36 - 40) \div 128 = 9 for 124-byte cookies, so all n <= 8 are kept)
 NtsApiShape(x) == IF x.api = "req"
                   THEN [uid |-> 32, ck |-> <<x.cl>>, ph |-> [i \in 1 .. (8 - x.n) |-> x.cl], pt |-> << >>]
                   ELSE [uid |-> 32, ck |-> << >>, ph |-> << >>, pt |-> [i \in 1 .. x.n |-> x.cl]]
